@@ -1,6 +1,5 @@
 (* C18 — model of quara/objects/effective_lindbladian.py (EffectiveLindbladian, generate_hs_from_*, jump-operator
-   generators, calc_h_mat / calc_j_mat / calc_k_mat, the h / j / k / d parts, verdicts, equality projection, variable
-   conversion), of the sparse tables basis_basisconjugate_T_sparse_from_1 / basishermitian_basis_T_from_1 of
+   generators, calc_h_mat / calc_j_mat / calc_k_mat, the h / j / k / d parts, verdicts, equality projection), of the sparse tables basis_basisconjugate_T_sparse_from_1 / basishermitian_basis_T_from_1 of
    quara/objects/composite_system.py, of gate.convert_hs, and of the Taylor partial sums of exp.  DEFINITIONS ONLY.
 
    Conventions (fixed against the code; the correspondence check decides them):
@@ -71,16 +70,18 @@ Definition lcb_h (d : nat) (H : cmat) : cmat := h_part d H.                    (
 Definition lcb_k (d : nat) (B : nat -> cmat) (K : cmat) : cmat :=
   madd (j_part d (j_of_k d B K)) (k_part d B K).                               (* generate_hs_from_k *)
 
-(* jump operators.  AS CODED (generate_j_part_cb_from_jump_operators): -1/2 sum_c (kron(c, I) + kron(I, conj c)) — the jump
-   operator itself, not c^dagger c;  [jump_j_gksl] is what the GKSL equation prescribes. *)
+(* jump operators (generate_j/k/d_part_cb_from_jump_operators), as REPAIRED by fixes/c18-jump-operators-cdagger-c.diff:
+     j part = -1/2 sum_c (kron(c^dagger c, I) + kron(I, conj (c^dagger c))) ,  k part = sum_c kron(c, conj c).
+   [jump_j_prefix] / [jump_d_prefix] are the routine AS CODED BEFORE FIX c18-jump-operators-cdagger-c: the jump operator c
+   itself in place of c^dagger c (kept only for the refutation theorem and for attributing a re-appearing defect). *)
 Definition msum (l : list cmat) : cmat := fold_right (fun X acc => madd X acc) mzero l.
-Definition jump_j_code (d : nat) (cs : list cmat) : cmat :=
-  mscale (zof (copp F half) : Cx) (msum (map (fun c => j_part d c) cs)).
-Definition jump_j_gksl (d : nat) (cs : list cmat) : cmat :=
+Definition jump_j (d : nat) (cs : list cmat) : cmat :=
   mscale (zof (copp F half) : Cx) (msum (map (fun c => j_part d (mmul d (cadj c) c)) cs)).
 Definition jump_k (d : nat) (cs : list cmat) : cmat := msum (map (fun c => kron d d c (cconj c)) cs).
-Definition jump_d_code (d : nat) (cs : list cmat) : cmat := madd (jump_j_code d cs) (jump_k d cs).
-Definition jump_d_gksl (d : nat) (cs : list cmat) : cmat := madd (jump_j_gksl d cs) (jump_k d cs).
+Definition jump_d (d : nat) (cs : list cmat) : cmat := madd (jump_j d cs) (jump_k d cs).
+Definition jump_j_prefix (d : nat) (cs : list cmat) : cmat :=
+  mscale (zof (copp F half) : Cx) (msum (map (fun c => j_part d c) cs)).
+Definition jump_d_prefix (d : nat) (cs : list cmat) : cmat := madd (jump_j_prefix d cs) (jump_k d cs).
 
 (* ---------------------------------------------------------------- change of basis (gate.convert_hs) *)
 Definition Umat (d : nat) (B : nat -> cmat) : cmat := fun a s => zconj (vecr d (B a) s).
@@ -128,32 +129,35 @@ Definition h_coef (d : nat) (B : nat -> cmat) (L : cmat) (a : nat) : Cx :=
   (c0 F, kdiv F (c1 F) (cmul F two (ofnat d))) *c tr2 d L (probe_m d (B a)).
 Definition calc_h_mat (d : nat) (B : nat -> cmat) (L : cmat) : cmat := fun i j =>
   sumn (d * d) (fun a => h_coef d B L a *c B a i j).
-(* AS CODED:  for alpha, B_alpha in enumerate(basis[1:]):  delta = 1 if alpha == 0 ;  j_alpha = trace / (2 dim (1 + delta)) —
-   i.e. the identity component (basis[0]) is never visited and the halving hits basis[1] *)
+(* calc_j_mat as REPAIRED by fixes/c18-calc-j-mat-identity-component.diff:
+     for alpha, B_alpha in enumerate(basis):  delta = 1 if alpha == 0 ;  j_alpha = trace / (2 dim (1 + delta))
+   i.e. the whole basis is visited and the halving hits the identity element basis[0]. *)
 Definition jden (d : nat) (first : bool) : F :=
   kdiv F (c1 F) (cmul F (cmul F two (ofnat d)) (if first then two else c1 F)).
-Definition j_coef_code (d : nat) (B : nat -> cmat) (L : cmat) (a : nat) : Cx :=
-  zof (jden d (Nat.eqb a 0)) *c tr2 d L (probe_p d (B (S a))).
-Definition calc_j_mat_code (d : nat) (B : nat -> cmat) (L : cmat) : cmat := fun i j =>
-  sumn (d * d - 1) (fun a => j_coef_code d B L a *c B (S a) i j).
-(* CORRECTED:  for alpha, B_alpha in enumerate(basis) *)
-Definition j_coef_fix (d : nat) (B : nat -> cmat) (L : cmat) (a : nat) : Cx :=
+Definition j_coef (d : nat) (B : nat -> cmat) (L : cmat) (a : nat) : Cx :=
   zof (jden d (Nat.eqb a 0)) *c tr2 d L (probe_p d (B a)).
-Definition calc_j_mat_fix (d : nat) (B : nat -> cmat) (L : cmat) : cmat := fun i j =>
-  sumn (d * d) (fun a => j_coef_fix d B L a *c B a i j).
+Definition calc_j_mat (d : nat) (B : nat -> cmat) (L : cmat) : cmat := fun i j =>
+  sumn (d * d) (fun a => j_coef d B L a *c B a i j).
+(* AS CODED BEFORE FIX c18-calc-j-mat-identity-component:  for alpha, B_alpha in enumerate(basis[1:]) — the identity component
+   (basis[0]) is never visited and the halving hits basis[1].  Kept only for the refutation theorems and for attributing a
+   re-appearing defect; the harness compares the implementation with [calc_j_mat]. *)
+Definition j_coef_prefix (d : nat) (B : nat -> cmat) (L : cmat) (a : nat) : Cx :=
+  zof (jden d (Nat.eqb a 0)) *c tr2 d L (probe_p d (B (S a))).
+Definition calc_j_mat_prefix (d : nat) (B : nat -> cmat) (L : cmat) : cmat := fun i j =>
+  sumn (d * d - 1) (fun a => j_coef_prefix d B L a *c B (S a) i j).
 (* k[alpha, beta] = trace(L_cb @ kron(basis[alpha+1], conj basis[beta+1])) *)
 Definition calc_k_mat (d : nat) (B : nat -> cmat) (L : cmat) : cmat := fun a b => tr2 d L (bbc d B (S a) (S b)).
 
-(* the parts of an OBJECT (hs w.r.t. B), as the methods compute them; [jfix] selects the corrected calc_j_mat *)
+(* the parts of an OBJECT (hs w.r.t. B), as the methods calc_h_part / calc_j_part / calc_k_part / calc_d_part compute them *)
 Definition obj_h_part_cb (d : nat) (B : nat -> cmat) (HS : rmat) : cmat := h_part d (calc_h_mat d B (cb_of_hs d B HS)).
-Definition obj_j_part_cb (jfix : bool) (d : nat) (B : nat -> cmat) (HS : rmat) : cmat :=
-  j_part d ((if jfix then calc_j_mat_fix else calc_j_mat_code) d B (cb_of_hs d B HS)).
+Definition obj_j_part_cb (d : nat) (B : nat -> cmat) (HS : rmat) : cmat := j_part d (calc_j_mat d B (cb_of_hs d B HS)).
 Definition obj_k_part_cb (d : nat) (B : nat -> cmat) (HS : rmat) : cmat := k_part d B (calc_k_mat d B (cb_of_hs d B HS)).
-Definition obj_d_part_cb (jfix : bool) (d : nat) (B : nat -> cmat) (HS : rmat) : cmat :=
-  madd (obj_j_part_cb jfix d B HS) (obj_k_part_cb d B HS).
-(* extract-then-rebuild, comp basis *)
-Definition rebuild_cb (jfix : bool) (d : nat) (B : nat -> cmat) (L : cmat) : cmat :=
-  lcb_hjk d B (calc_h_mat d B L) ((if jfix then calc_j_mat_fix else calc_j_mat_code) d B L) (calc_k_mat d B L).
+Definition obj_d_part_cb (d : nat) (B : nat -> cmat) (HS : rmat) : cmat := madd (obj_j_part_cb d B HS) (obj_k_part_cb d B HS).
+(* extract-then-rebuild, comp basis; [rebuild_cb_prefix] with calc_j_mat as coded before fix c18-calc-j-mat-identity-component *)
+Definition rebuild_cb (d : nat) (B : nat -> cmat) (L : cmat) : cmat :=
+  lcb_hjk d B (calc_h_mat d B L) (calc_j_mat d B L) (calc_k_mat d B L).
+Definition rebuild_cb_prefix (d : nat) (B : nat -> cmat) (L : cmat) : cmat :=
+  lcb_hjk d B (calc_h_mat d B L) (calc_j_mat_prefix d B L) (calc_k_mat d B L).
 
 (* ---------------------------------------------------------------- the GKSL right-hand side (the property's predicate) *)
 Definition gksl (d : nat) (B : nat -> cmat) (H K rho : cmat) : cmat := fun i j =>
@@ -180,25 +184,17 @@ Definition is_cp_dec (d : nat) (B : nat -> cmat) (atol : F) (HS : rmat) : bool :
 Definition is_physical_dec (d : nat) (B : nat -> cmat) (atol : F) (HS : rmat) : bool :=
   is_tp_dec (d * d) atol HS && is_cp_dec d B atol HS.
 
-(* ---------------------------------------------------------------- equality projection, variables *)
-(* calc_proj_eq_constraint: new_hs[0, :] = 0 *)
+(* ---------------------------------------------------------------- equality projection *)
+(* EffectiveLindbladian.calc_proj_eq_constraint: new_hs[0, :] = 0.
+   (The variable-vector routines EffectiveLindbladian inherits from Gate — calc_proj_*_with_var, generate_from_var — and
+   convert_var_to_effective_lindbladian are NOT modelled: property C18 does not speak about variable vectors.) *)
 Definition proj_eq (HS : rmat) : rmat := fun i j => if Nat.eqb i 0 then c0 F else HS i j.
-(* the projection EffectiveLindbladian INHERITS for variable vectors (Gate.calc_proj_eq_constraint_with_var):
-   identity with the parameter constraint on, else var[0] = 1, var[1 : n] = 0 (the GATE's first row) *)
-Definition proj_eq_var_code (n : nat) (on_eq : bool) (v : rvec) : rvec :=
-  if on_eq then v else fun k => if Nat.eqb k 0 then c1 F else if (k <? n)%nat then c0 F else v k.
-Definition proj_eq_var_fix (n : nat) (on_eq : bool) (v : rvec) : rvec :=
-  if on_eq then v else fun k => if (k <? n)%nat then c0 F else v k.
-(* convert_hs_to_var: np.delete(hs, 0, axis=0).flatten() / hs.flatten() *)
-Definition to_var (n : nat) (on_eq : bool) (HS : rmat) : rvec :=
-  if on_eq then fun k => vecr n HS (n + k)%nat else vecr n HS.
-(* convert_var_to_effective_lindbladian AS CODED: np.insert(reshaped, 0, np.eye(1, dim**2), axis=0) — the row (1,0,...,0) *)
-Definition from_var_code (n : nat) (on_eq : bool) (v : rvec) : rmat :=
-  if on_eq then fun i j => match i with O => (if Nat.eqb j 0 then c1 F else c0 F) | S i' => v (i' * n + j)%nat end
-  else unvecr n v.
-(* CORRECTED: a zero row *)
-Definition from_var_fix (n : nat) (on_eq : bool) (v : rvec) : rmat :=
-  if on_eq then fun i j => match i with O => c0 F | S i' => v (i' * n + j)%nat end else unvecr n v.
+
+(* EffectiveLindbladian.calc_proj_ineq_constraint: h_mat, j_mat, k_mat are extracted, k_mat is replaced by K' = its
+   eigenvalue-clipped version (np.linalg.eig: an ORACLE, K' is a parameter here and is certificate-checked at run time),
+   and the generator is rebuilt with generate_effective_lindbladian_from_hjk *)
+Definition proj_ineq_cb (d : nat) (B : nat -> cmat) (L K' : cmat) : cmat :=
+  lcb_hjk d B (calc_h_mat d B L) (calc_j_mat d B L) K'.
 
 (* ---------------------------------------------------------------- Taylor partial sums of exp (to_gate = expm(hs)) *)
 Fixpoint mpow (n : nat) (L : rmat) (k : nat) : rmat :=
@@ -216,12 +212,12 @@ Arguments ofnat {F} n. Arguments h_part {F} d H _ _. Arguments j_part {F} d J _ 
 Arguments bhb {F} d B a b _ _. Arguments j_of_k {F} d B K _ _. Arguments tab_k {F} d B _ _. Arguments tab_j {F} d B _ _.
 Arguments k_part_sparse {F} d B K _ _. Arguments j_of_k_sparse {F} d B K _ _.
 Arguments lcb_hjk {F} d B H J K _ _. Arguments lcb_hk {F} d B H K _ _. Arguments lcb_h {F} d H _ _. Arguments lcb_k {F} d B K _ _.
-Arguments msum {F} l _ _. Arguments jump_j_code {F} d cs _ _. Arguments jump_j_gksl {F} d cs _ _. Arguments jump_k {F} d cs _ _.
-Arguments jump_d_code {F} d cs _ _. Arguments jump_d_gksl {F} d cs _ _.
+Arguments msum {F} l _ _. Arguments jump_j {F} d cs _ _. Arguments jump_j_prefix {F} d cs _ _. Arguments jump_k {F} d cs _ _.
+Arguments jump_d {F} d cs _ _. Arguments jump_d_prefix {F} d cs _ _.
 Arguments Umat {F} d B _ _. Arguments chs_of_cb {F} d B L _ _. Arguments cb_of_chs {F} d B HS _ _. Arguments cb_of_hs {F} d B HS _ _.
 Arguments tr2 {F} d X Y. Arguments probe_m {F} d Ba _ _. Arguments probe_p {F} d Ba _ _.
-Arguments h_coef {F} d B L a. Arguments calc_h_mat {F} d B L _ _. Arguments j_coef_code {F} d B L a. Arguments calc_j_mat_code {F} d B L _ _.
-Arguments j_coef_fix {F} d B L a. Arguments calc_j_mat_fix {F} d B L _ _. Arguments calc_k_mat {F} d B L _ _.
-Arguments rebuild_cb {F} jfix d B L _ _. Arguments gksl {F} d B H K rho _ _. Arguments gksl_jump {F} d cs rho _ _.
-Arguments apply_cb {F} d L rho _ _. Arguments proj_eq {F} HS _ _. Arguments herm_part {F} K _ _.
+Arguments h_coef {F} d B L a. Arguments calc_h_mat {F} d B L _ _. Arguments j_coef {F} d B L a. Arguments calc_j_mat {F} d B L _ _.
+Arguments j_coef_prefix {F} d B L a. Arguments calc_j_mat_prefix {F} d B L _ _. Arguments calc_k_mat {F} d B L _ _.
+Arguments rebuild_cb {F} d B L _ _. Arguments rebuild_cb_prefix {F} d B L _ _. Arguments gksl {F} d B H K rho _ _. Arguments gksl_jump {F} d cs rho _ _.
+Arguments apply_cb {F} d L rho _ _. Arguments proj_eq {F} HS _ _. Arguments proj_ineq_cb {F} d B L K' _ _. Arguments herm_part {F} K _ _.
 Arguments mpow {F} n L k _ _. Arguments poly_sum {F} n c L N _ _. Arguments tterm {F} frz n L k _ _. Arguments texp {F} frz n L N _ _.
